@@ -182,8 +182,11 @@ def make_case(rng, kind):
         spec["committed"] = {G: committed}
         spec["coordinator"] = {G: rng.randint(1, nb)}
     bcalls = []
+    # a group without an offset storage: creation fails with unset-offset-storage - but only after the assignment was found in order
+    # (nothing assigned / unknown topic or partition are reported first)
+    nostorage = grouped and rng.random() < 0.12
     if grouped:
-        bcalls += [T("with_group", [G]), T("with_offset_storage", [storage])]
+        bcalls += [T("with_group", [G])] + ([] if nostorage else [T("with_offset_storage", [storage])])
     bcalls.append(T("with_fallback_offset", [T(rng.choice(["earliest", "latest"]))]))
     tcalls = [T("with_topic", [t]) if ps is None else T("with_topic_partitions", [t, list(ps)]) for (t, ps) in calls]
     # topic calls keep their order; the others are sprinkled in between
@@ -197,9 +200,9 @@ def make_case(rng, kind):
         ops = [T("consumer_build", [T("from_hosts", [hosts]), tcalls])]
     ibuild = len(ops) - 1
     meta = {"calls": [(t, None if ps is None else list(ps)) for (t, ps) in calls], "group": grouped, "storage": storage,
-            "ibuild": ibuild, "kind": kind, "nforeign": 0, "npositive": 0}
+            "ibuild": ibuild, "kind": kind, "nforeign": 0, "npositive": 0, "nostorage": nostorage}
     dead_topic = status == "ok" and any(all(topics[t][p] < 0 for p in range(len(topics[t]))) for t in set(t for t, _ in A))
-    if status == "ok" and not (dead_topic and not any(tp in committed for tp in A)):
+    if status == "ok" and not nostorage and not (dead_topic and not any(tp in committed for tp in A)):
         def lcm(tp):
             return T("consumer_op", [T("last_consumed_message", [tp[0], tp[1]])])
         ops += [T("consumer_op", [T("subscriptions")]), T("poll"), T("poll")]
@@ -325,6 +328,10 @@ def oracle(case, recs, cl):
         for h, rq in _parsed(recs[m["ibuild"]]):
             if rq["api"] in ("fetch", "offset_fetch", "offset_commit", "offsets"):
                 F("a rejected assignment still sent a %s request" % rq["api"])
+        return fails
+    if m.get("nostorage"):
+        if res != T("err", [T("unset_offset_storage")]):
+            F("create() with a group, a valid assignment and no offset storage returned %s, expected unset-offset-storage" % dumps(res)[:80])
         return fails
     atopics = set(t for t, _ in A)
     committed = spec.get("committed", {}).get(G, {}) if m["group"] else {}
